@@ -185,3 +185,68 @@ def Rz(a):
 
 def euler_ref(p1, P, p2):
     return Rz(p1) @ Rx(P) @ Rz(p2)
+
+
+# ----------------------------------------------------------------------------- argument kinds (containers / dtypes callers use)
+
+
+def _totuple(x):
+    return tuple(_totuple(e) for e in x) if isinstance(x, list) else x
+
+
+def _toint(x):
+    return [_toint(e) for e in x] if isinstance(x, list) else int(x)
+
+
+def kinds(x, single=True):
+    """The same numbers in the containers and dtypes callers hand over: a list of (kind, object, precision) with precision
+    'exact' (the very same float64 values: results must agree to rounding) or 'single' (values rounded to float32: results agree
+    to single precision).  Integer kinds only when every value is a whole number; Fortran order / strided views for ndim >= 1."""
+    a = np.asarray(x, float)
+    whole = bool(np.all(a == np.round(a))) and bool(np.all(np.abs(a) < 2 ** 31))
+    out = []
+    if a.ndim == 0:
+        v = float(a)
+        out = [("float", v, "exact"), ("np.float64", np.float64(v), "exact"), ("0-d array", np.array(v), "exact")]
+        if whole:
+            out += [("int", int(v), "exact"), ("np.int64", np.int64(int(v)), "exact")]
+        if single:
+            out.append(("np.float32", np.float32(v), "single"))
+        return out
+    out.append(("list", a.tolist(), "exact"))
+    out.append(("tuple", _totuple(a.tolist()), "exact"))
+    out.append(("ndarray", a.copy(), "exact"))
+    big = np.full(tuple(2 * n for n in a.shape), 777.25)
+    view = big[tuple(slice(1, None, 2) for _ in a.shape)]
+    view[...] = a
+    out.append(("strided view", view, "exact"))
+    if a.ndim >= 2:
+        out.append(("fortran order", np.asfortranarray(a), "exact"))
+        out.append(("transposed view", np.ascontiguousarray(a.T).T, "exact"))
+    if a.ndim == 1:
+        out.append(("list of np.float64", [np.float64(v) for v in a], "exact"))
+    if whole:
+        out.append(("int list", _toint(a.tolist()), "exact"))
+        out.append(("int tuple", _totuple(_toint(a.tolist())), "exact"))
+        out.append(("int64 array", a.astype(np.int64), "exact"))
+        out.append(("int32 array", a.astype(np.int32), "exact"))
+    if single:
+        out.append(("float32 array", a.astype(np.float32), "single"))
+    return out
+
+
+def int_cells(crystal_system, cell_choice):
+    """conforming cells whose six parameters are whole numbers - the way users type them: [4, 4, 6, 90, 90, 90]"""
+    if crystal_system == "triclinic":
+        return [[4.0, 5.0, 7.0, 80.0, 95.0, 100.0]]
+    if crystal_system == "monoclinic":
+        return [[4.0, 5.0, 7.0, 90.0, 100.0, 90.0]]
+    if crystal_system == "orthorhombic":
+        return [[4.0, 5.0, 7.0, 90.0, 90.0, 90.0]]
+    if crystal_system == "tetragonal":
+        return [[4.0, 4.0, 6.0, 90.0, 90.0, 90.0]]
+    if crystal_system in ("trigonal", "hexagonal"):
+        if cell_choice == "rhombohedral":
+            return [[5.0, 5.0, 5.0, 70.0, 70.0, 70.0]]
+        return [[3.0, 3.0, 5.0, 90.0, 90.0, 120.0]]
+    return [[4.0, 4.0, 4.0, 90.0, 90.0, 90.0]]
